@@ -97,7 +97,7 @@ func OvsToNativeAtomic(basicType string, ovsElem interface{}) (interface{}, erro
 	case TypeInteger:
 		naType := NativeTypeFromAtomic(basicType)
 		// Default decoding of numbers is float64, convert them to int
-		if !reflect.TypeOf(ovsElem).ConvertibleTo(naType) {
+		if ovsElem == nil || !reflect.TypeOf(ovsElem).ConvertibleTo(naType) {
 			return nil, NewErrWrongType("OvsToNativeAtomic", fmt.Sprintf("Convertible to %s", naType), ovsElem)
 		}
 		return reflect.ValueOf(ovsElem).Convert(naType).Interface(), nil
